@@ -399,6 +399,11 @@ class ProducerContract(Contract):
     def start_requires(self, ip, a):
         return self.requires(ip, a)
 
+    def suspend_inv(self, ip, a, g):
+        """facts that hold whenever the generator is suspended at a yield (after the yield's ghost
+        update): asserted in the body at every yield, assumed by the consumer after every step"""
+        return []
+
     def step_effects(self, ip, a, gen, label):
         """ghost effects of one producer step on the consumer's state (e.g. frames written)"""
         return None
@@ -428,29 +433,30 @@ class ProducerContract(Contract):
         saved = ip.reading
         ip.reading = 'call'
         try:
-            if not gen.started:
-                for f in self.axioms(ip, a):
-                    st.assume(f)
-                for item in self.start_requires(ip, a):
-                    st.oblige('pre(%s):%s' % (short(self.qual), item[0]), item[1], tags=item[2] if len(item) > 2 else ())
-                gen.started = True
+            self.start(ip, gen)
             old = st.snapshot()
             specs = self.yields(ip, a)
             rspecs = self.p_raises(ip, a, old, gen.g)
             labels = ['yield:' + s.name for s in specs] + ['raise:' + r.name for r in rspecs] + ['done']
             choice = st.choose(labels, 'step:' + short(self.qual))
             k = labels.index(choice)
+            # the guard of a yield speaks about the generator's ghost state, which only the
+            # YieldSpec.after hooks change: it is taken BEFORE the step's havoc of the shared heap
+            if k < len(specs) and specs[k].when is not None and not getattr(specs[k], 'when_after_havoc', False):
+                st.assume(specs[k].when(ip, a, gen.g))
             self.havoc(ip, a, self.p_modifies(ip, a))
             self.step_effects(ip, a, gen, choice)
             if k < len(specs):
                 s = specs[k]
-                if s.when is not None:
+                if s.when is not None and getattr(s, 'when_after_havoc', False):
                     st.assume(s.when(ip, a, gen.g))
                 v = s.make(ip, a, gen.g)
                 for item in (s.guarantee(ip, a, gen.g, v) if s.guarantee else []):
                     self._assume_post(ip, item, 'yield:' + s.name)
                 if s.after:
                     s.after(ip, a, gen.g, v)
+                for item in self.suspend_inv(ip, a, gen.g):
+                    self._assume_post(ip, item, 'suspended:' + s.name)
                 gen.last = (s, v)
                 return ('yield', v)
             gen.done = True
@@ -467,6 +473,19 @@ class ProducerContract(Contract):
             return ('done',)
         finally:
             ip.reading = saved
+
+    def start(self, ip, gen):
+        """the precondition of a generator is due when it first runs; a `for` statement runs it at
+        once, so the loop machinery calls this BEFORE cutting the loop at its invariant"""
+        if gen.started:
+            return
+        st = ip.st
+        a = gen.args
+        for f in self.axioms(ip, a):
+            st.assume(f)
+        for item in self.start_requires(ip, a):
+            st.oblige('pre(%s):%s' % (short(self.qual), item[0]), item[1], tags=item[2] if len(item) > 2 else ())
+        gen.started = True
 
     def drop(self, ip, gen):
         """the consumer abandons the generator (break / exception / return out of a for loop, or
@@ -522,6 +541,8 @@ class ProducerContract(Contract):
             st.oblige('yield%d(%s):%s' % (k, s.name, item[0]), item[1], tags=item[2] if len(item) > 2 else s.tags)
         if s.after:
             s.after(ip, a, g, v)
+        for item in self.suspend_inv(ip, a, g):
+            st.oblige('yield%d(%s):suspended:%s' % (k, s.name, item[0]), item[1], tags=item[2] if len(item) > 2 else s.tags)
         st.ghost['last_yield'] = (k, s, v)
         st.ghost.setdefault('yield_trace', []).append((k, s.name))
         if st.choose(['resume', 'close'], 'yield%d' % k) == 'close':
